@@ -3,7 +3,7 @@
 From Coq Require Import List Arith Bool NArith.
 From FFSM2 Require Import Model.TaskList Model.BitArray Model.BitStream Model.Plan Model.Ancestors Model.Machine
   Proofs.BitArrayProofs Proofs.TaskListProofs Proofs.TaskListRun Proofs.PlanProofs Proofs.MachineFrame Proofs.MachinePlan Proofs.MachineLife Proofs.GuardProofs Proofs.CycleProofs Proofs.PlanStep
-  Proofs.SerialProofs Proofs.LogProofs Proofs.MachineTop Model.Multi Generated.InitFacts Proofs.ConstructProofs Proofs.LifeMonitor Proofs.ActivationRounds Proofs.IndexSafety Proofs.FeatureProofs Model.Script Proofs.Contract Proofs.Histories Proofs.StatusBits Proofs.Worlds.
+  Proofs.SerialProofs Proofs.LogProofs Proofs.MachineTop Model.Multi Generated.InitFacts Proofs.ConstructProofs Proofs.LifeMonitor Proofs.ActivationRounds Proofs.IndexSafety Proofs.FeatureProofs Model.Script Proofs.Contract Proofs.Histories Proofs.StatusBits Proofs.Worlds Model.Cxx Generated.LeafCode Proofs.LeafTactics Proofs.LeafConsts.
 Import ListNotations.
 
 (* loading what any instance of the same type saved, into any loader state: the loader ends with the saver's activity,
@@ -116,10 +116,10 @@ Theorem C12_between_any_two_histories :
          forall (lg lg' : bool) (ops ops' : list (api_op P)),
          ops_ok P cfg orc (construct P cfg orc lg) ops ->
          ops_ok P cfg orc' (construct P cfg orc' lg') ops' ->
-         (c_manual cfg = false -> is_on P cfg (run P cfg orc lg ops)) ->
-         (c_manual cfg = false -> is_on P cfg (run P cfg orc' lg' ops')) ->
-         let saver := run P cfg orc lg ops in
-         let loader := run P cfg orc' lg' ops' in
+         (c_manual cfg = false -> is_on P cfg (Machine.run P cfg orc lg ops)) ->
+         (c_manual cfg = false -> is_on P cfg (Machine.run P cfg orc' lg' ops')) ->
+         let saver := Machine.run P cfg orc lg ops in
+         let loader := Machine.run P cfg orc' lg' ops' in
          let loader' := load P cfg orc' (save P cfg (co P saver)) loader in
          active P (co P loader') = active P (co P saver) /\
          Inv P cfg loader' /\
@@ -135,10 +135,32 @@ Theorem C12_reachable_states_can_be_saved :
          wf_oracle P cfg orc ->
          forall (lg : bool) (ops : list (api_op P)),
          ops_ok P cfg orc (construct P cfg orc lg) ops ->
-         (c_manual cfg = false -> is_on P cfg (run P cfg orc lg ops)) ->
-         saver_ok P cfg (co P (run P cfg orc lg ops)).
+         (c_manual cfg = false -> is_on P cfg (Machine.run P cfg orc lg ops)) ->
+         saver_ok P cfg (co P (Machine.run P cfg orc lg ops)).
 Proof. exact (reachable_saver_ok). Qed.
 Print Assumptions C12_reachable_states_can_be_saved.
+
+(* the tie to the source, by proof: the static constants of BitArrayT<N> as tools/leafcode.py translates them from
+   clang's typed AST of /repo's current bit_array.hpp / utility.hpp on every run (Generated/LeafCode.v; contain()
+   included), evaluated in the interpreter of Model/Cxx.v (C++ integer semantics), are CAPACITY = N and UNIT_COUNT =
+   ceil(N / 8) for every N up to 255 - the size the model gives the report-bit arrays and the serialized form's byte
+   count rest on *)
+Theorem C12_source_constants_are_the_model :
+  forall cap : Z,
+         BinInt.Z.le (Zpos 1) cap /\ BinInt.Z.le cap (Zpos 255) ->
+         build_consts leaf_ftable ba_consts_defs (ncapacity cap) = Some (ba_consts cap).
+Proof. exact (src_BitArray_consts). Qed.
+Print Assumptions C12_source_constants_are_the_model.
+
+(* contain(x, to) of utility.hpp, as translated from the current source, is ceil(x / to) for all one-byte operands (no
+   wrap-around in the intermediate sum) *)
+Theorem C12_source_contain_is_the_model :
+  forall x t : Z,
+         BinInt.Z.le Z0 x /\ BinInt.Z.le x (Zpos 255) ->
+         BinInt.Z.le (Zpos 1) t /\ BinInt.Z.le t (Zpos 255) ->
+         call2 leaf_ftable contain_u8_fn x t = Some (BinInt.Z.div (BinInt.Z.sub (BinInt.Z.add x t) (Zpos 1)) t).
+Proof. exact (src_contain_u8). Qed.
+Print Assumptions C12_source_contain_is_the_model.
 
 (* several instances: j.save(buffer); i.load(buffer) at any point of any accepted multi-instance script (the instances
    may be copies, may have been loaded before, may have gone through any calls) leaves instance i with instance j's
